@@ -81,7 +81,15 @@ func solveAll(ctx *SMTCtx, obls []*Obligation, dir string, timeoutS int, workers
 				t0 := time.Now()
 				var agree []string
 				for si, s := range solvers {
-					res, out, _ := runSolver(s, file, timeoutS)
+					tmo := timeoutS
+					if ob.Kind == "cover" {
+						// vacuity guard: expected answer is sat; quantified contexts often give unknown
+						if si > 0 {
+							break
+						}
+						tmo = 2
+					}
+					res, out, _ := runSolver(s, file, tmo)
 					if res == "unsat" || res == "sat" {
 						if ob.Result == "" || ob.Result == "unknown" || ob.Result == "timeout" || ob.Result == "error" {
 							ob.Result, ob.Solver = res, s.name
